@@ -370,12 +370,12 @@ class DB:
         return None
 
 
-def load_db(cache_dir, config):
+def load_db(cache_dir, config, tests=True):
     db = DB(config)
-    d = os.path.join(cache_dir, config)
-    names = sorted(os.listdir(d))
-    for fn in names:
-        if fn.endswith(".json"):
-            with open(os.path.join(d, fn)) as fh:
-                db.add_tu(fn[:-5], json.load(fh))
+    info = json.load(open(os.path.join(cache_dir, "done.json")))
+    for rel, path in sorted(info["index"][config].items()):
+        if not tests and not rel.startswith("src/"):
+            continue
+        with open(path) as fh:
+            db.add_tu(rel, json.load(fh))
     return db
